@@ -86,7 +86,12 @@ type FuncV struct {
 
 type TupleV []Value
 
-type ChanV struct{ id int }
+type ChanV struct {
+	id     int
+	cap    int
+	buf    []Value
+	closed bool
+}
 
 type NativeV struct{ v interface{} }
 
@@ -163,8 +168,8 @@ func (ex *Exec) zero(t types.Type) Value {
 		if u.Kind() == types.UnsafePointer {
 			return Ptr{}
 		}
-		if u.Kind() == types.UntypedNil {
-			return nil
+		if u.Kind() == types.UntypedNil || u.Kind() == types.Invalid {
+			return nil // (go/ssa types a blank range key/value as invalid)
 		}
 		w, _, _ := basicWidth(u)
 		if w < 0 {
